@@ -40,10 +40,7 @@ LIFECYCLE = [W + n for n in ('spawn_process', 'spawn_processes', 'kill_process',
 
 
 def check(run, ctx):
-    r1(run, ctx)
-    r2(run, ctx)
-    r3(run, ctx)
-    r4(run, ctx)
+    run.each(ctx, [r1, r2, r3, r4])
 
 
 def r1(run, ctx):
